@@ -100,6 +100,8 @@ def run(rep, tier):
     rep.extra["selfcheck_cells_compared_with_duckdb"] = cells
     _output_representation(rep, tier)
     _engine_b(rep, tier)
+    from vt.props import _c32_mapper
+    _c32_mapper.run_mapper(rep, tier)
     rep.extra["rule"] = ("one obligation = one (script template, runtime-error site): z3 decides whether a load-valid input reaches the site (unsat = unreachable within the bound); a reachable "
                          "site holds iff the real run() on the witness raises a VTLEngineException with a catalogued code; non-trivial = the template has such a site")
 
